@@ -1,0 +1,14 @@
+//go:build verif
+
+package reactive
+
+// VerifHookWaitGroupAdd is a yield point for the verification harness (build tag verif only): if set, it is called by
+// WaitGroup.Add for every element between the insertion into the pending elements and the correction of the pending
+// elements counter.
+var VerifHookWaitGroupAdd func()
+
+func verifHookWaitGroupAdd() {
+	if hook := VerifHookWaitGroupAdd; hook != nil {
+		hook()
+	}
+}
